@@ -38,8 +38,9 @@ class Event:
 
 
 class SymWalk:
-    def __init__(self, func: ast.FunctionDef, max_unroll: int = 64):
+    def __init__(self, func: ast.FunctionDef, max_unroll: int = 64, guard_class=None):
         self.func = func
+        self.guard_class = guard_class      # callable(ast.Call) -> exception class name | None
         self.env: dict[str, ast.AST] = {}
         self.events: list[Event] = []
         self.max_unroll = max_unroll
@@ -149,10 +150,23 @@ class SymWalk:
             return None
         if isinstance(st, ast.Expr):
             self._calls_in(st.value, guards, st)
+            if self.guard_class is not None and isinstance(st.value, ast.Call) and st.value.args:
+                cls = self.guard_class(st.value)
+                if cls:
+                    self._emit('guard', st, self.subst(st.value.args[0]), guards, target=cls)
             return None
         if isinstance(st, ast.If):
             t = self.subst(st.test)
             self._calls_in(st.test, guards, st)
+            if not st.orelse and len(st.body) == 1 and isinstance(st.body[0], ast.Raise):
+                # `if not c: raise X(..)`  ==  guard(c) raising X
+                exc = st.body[0].exc
+                if isinstance(exc, ast.Call):
+                    exc = exc.func
+                cls = ast.unparse(exc) if exc is not None else '?'
+                cond = t.operand if isinstance(t, ast.UnaryOp) and isinstance(t.op, ast.Not) else \
+                    ast.UnaryOp(op=ast.Not(), operand=t)
+                self._emit('guard', st, cond, guards, target=cls)
             # `if c: continue` / `if c: return`  -> rest of the block runs under not c
             if not st.orelse and len(st.body) == 1 and isinstance(st.body[0], (ast.Continue, ast.Return, ast.Raise,
                                                                                 ast.Break)):
